@@ -74,6 +74,9 @@ impl Backend {
             }
         }
 
+        // DashMap iteration order differs between runs: list lenses in source order.
+        lenses.sort_by_key(|lens| lens.range.start.line);
+
         info!("Returning {} code lenses for {:?}", lenses.len(), file_path);
 
         if lenses.is_empty() {
